@@ -292,3 +292,124 @@ def ambiguous_star(rx, pattern: str, flags: int) -> Optional[str]:
                     return r
         return None
     return walk(list(p), False)
+
+
+# ------------------------------------------------------------------ keywords are whole words
+STR_METHODS_TO_STR = ("lower", "upper", "strip", "lstrip", "rstrip", "replace", "casefold", "expandtabs", "title", "format", "join")
+
+
+def _str_names(fn: ast.FunctionDef) -> Set[str]:
+    """names of `fn` that are certainly strings: parameters annotated str / Optional[str], and locals only ever
+    assigned from a str method / re.sub / an f-string of such"""
+    names: Set[str] = set()
+    for a in fn.args.posonlyargs + fn.args.args + fn.args.kwonlyargs:
+        if a.annotation is not None and ast.unparse(a.annotation) in ("str", "Optional[str]", "typing.Optional[str]", "str | None"):
+            names.add(a.arg)
+    changed = True
+    while changed:
+        changed = False
+        per: Dict[str, List[ast.AST]] = {}
+        for st in ast.walk(fn):
+            if isinstance(st, ast.Assign):
+                for t in st.targets:
+                    if isinstance(t, ast.Name):
+                        per.setdefault(t.id, []).append(st.value)
+            elif isinstance(st, ast.AnnAssign) and isinstance(st.target, ast.Name) and st.value is not None:
+                per.setdefault(st.target.id, []).append(st.value)
+            elif isinstance(st, (ast.For, ast.comprehension)) and isinstance(st.target, ast.Name):
+                per.setdefault(st.target.id, []).append(ast.Constant(value=None))     # loop variable: unknown
+        for nm, vals in per.items():
+            if nm in names and nm not in {a.arg for a in fn.args.args}:
+                continue
+
+            def is_str(v: ast.AST) -> bool:
+                if isinstance(v, ast.JoinedStr) or (isinstance(v, ast.Constant) and isinstance(v.value, str)):
+                    return True
+                if isinstance(v, ast.Call) and isinstance(v.func, ast.Attribute) and v.func.attr in STR_METHODS_TO_STR:
+                    r = v.func.value
+                    return isinstance(r, ast.Name) and r.id in names or is_str(r)
+                if isinstance(v, ast.Call) and call_name(v) in ("re.sub", "str"):
+                    return True
+                return isinstance(v, ast.Name) and v.id in names
+            if vals and all(is_str(v) for v in vals) and nm not in names:
+                names.add(nm)
+                changed = True
+    return names
+
+
+def _keyword_operand(e: ast.AST, fn: ast.FunctionDef) -> Optional[List[str]]:
+    """the alphabetic keywords `e` stands for: a constant, or the variable of a loop over a literal list of them"""
+    def words(vs):
+        return vs if vs and all(isinstance(v, str) and len(v) >= 3 and v.replace("_", "").isalpha() for v in vs) else None
+    if isinstance(e, ast.Constant):
+        return words([e.value])
+    if isinstance(e, ast.Name):
+        for st in ast.walk(fn):
+            if isinstance(st, (ast.For, ast.comprehension)) and isinstance(st.target, ast.Name) and st.target.id == e.id and \
+                    isinstance(st.iter, (ast.List, ast.Tuple)) and all(isinstance(x, ast.Constant) for x in st.iter.elts):
+                return words([x.value for x in st.iter.elts])
+    return None
+
+
+def keyword_substring(ctx, rep, modules: Sequence[str] = ("sourceform", "reader"), label: str = ""):
+    """a Fortran keyword is recognised as a whole word: `"<keyword>" in <statement text>` is a substring test and also
+    fires inside identifiers (`type(module_t) function f()` is not a MODULE procedure, `pure_t` is not PURE)"""
+    py = ctx.py
+    n = 0
+    for mod, fn in py.all_functions():
+        if mod not in modules:
+            continue
+        qual = py.qualname(fn)
+        strs = None
+        for c in ast.walk(fn):
+            if not (isinstance(c, ast.Compare) and len(c.ops) == 1 and isinstance(c.ops[0], (ast.In, ast.NotIn))):
+                continue
+            kws = _keyword_operand(c.left, fn)
+            if not kws:
+                continue
+            if strs is None:
+                strs = _str_names(fn)
+            rhs = c.comparators[0]
+            is_text = isinstance(rhs, ast.Name) and rhs.id in strs
+            n += 1
+            rep.ob(f"{label}{qual}: `{ast.unparse(c)[:60]}` is a whole-word test", not is_text,
+                   "the right-hand side is a collection of words (or not provably text)" if not is_text else
+                   f"`{ast.unparse(rhs)}` is the statement text itself, so the keyword(s) {', '.join(kws[:6])} are also found inside "
+                   f"identifiers: `type({kws[-1]}_t) function f()` gets the attribute `{kws[-1]}` and the result type `type(_t)`",
+                   py.nloc(c), nontrivial=is_text)
+    return n
+
+
+# ------------------------------------------------------------------ results of pure calls are used
+PURE_STR_METHODS = ("strip", "lstrip", "rstrip", "lower", "upper", "replace", "casefold", "removeprefix", "removesuffix",
+                    "expandtabs", "title", "capitalize", "swapcase", "zfill", "ljust", "rjust", "center", "encode", "decode")
+
+
+def _discarded(fn: ast.AST) -> List[ast.Expr]:
+    return [st for st in ast.walk(fn) if isinstance(st, ast.Expr) and isinstance(st.value, ast.Call) and
+            isinstance(st.value.func, ast.Attribute) and st.value.func.attr in PURE_STR_METHODS]
+
+
+def discarded_results(ctx, rep, modules: Optional[Sequence[str]] = None, label: str = ""):
+    """an expression statement whose value is the result of a side-effect-free string method does nothing: the
+    normalisation the author meant to apply (`value.strip().strip('"')`) is lost"""
+    py = ctx.py
+    if len(_discarded(ast.parse("def f(v):\n    v.strip().strip('\"')\n    return v\n"))) != 1:
+        raise AnalysisError("discarded_results: the matcher does not recognise its own positive example")
+    n = 0
+    per: Dict[str, int] = {}
+    for mod, fn in py.all_functions():
+        if modules is not None and mod not in modules:
+            continue
+        per[mod] = per.get(mod, 0) + sum(1 for st in ast.walk(fn) if isinstance(st, ast.Expr))
+        for st in _discarded(fn):
+            c = st.value
+            n += 1
+            rep.ob(f"{label}{py.qualname(fn)}: result of `{ast.unparse(c)[:60]}` is used", False,
+                   f"`.{c.func.attr}()` returns a new string and changes nothing: the statement has no effect, so the value "
+                   f"keeps what was meant to be removed", py.nloc(st), nontrivial=True)
+    for mod, k in sorted(per.items()):
+        n += 1
+        rep.ob(f"{label}{mod}: no expression statement discards the result of a pure string method", True,
+               f"{k} expression statements inspected", mod)
+    return n
